@@ -580,6 +580,13 @@ class C20(Check):
             sizes += [200, 999, 1000, 1001, 2500]
         for s in sizes:
             cases.append(self.gen_anim(rng, n=s))
+        for n_big, mode_big in ((230, 1), (260, 2)):
+            # long histories through GanttChartCreator.create_gif / create_video (their own defaults)
+            c = self.gen_anim(rng, n=n_big)
+            c["mode"] = mode_big
+            c.pop("warm", None)
+            cases.append(c)
+            self.note("anim_long_history_through_the_creator")
         cases.append(self.gen_anim(rng, n=rng.choice([100, 101, 110]), flat=True))
         cases.append(self.gen_anim(rng, n=1000 + rng.randint(1, 400), flat=True))
         for _ in range(60 * scale):
